@@ -174,11 +174,19 @@ func vfC17(slice int) {
 		a.tree["object"] = map[string]interface{}{"type": "Note", "id": id}
 		vals = append(vals, vfVal{id: id, embedded: true})
 	}
-	if slice == 0 && vfChoose("has-tag", 2) == 1 {
-		t := vfIRI("tag")
-		a.tree["tag"] = t
-		// getInboxForwardingValues order: inReplyTo, tag, object, target
-		vals = append([]vfVal{{id: t}}, vals...)
+	if slice == 0 {
+		switch vfChoose("has-tag", 3) {
+		case 1:
+			t := vfIRI("tag")
+			a.tree["tag"] = t
+			// getInboxForwardingValues order: inReplyTo, tag, object, target
+			vals = append([]vfVal{{id: t}}, vals...)
+		case 2:
+			// an embedded Link-family value: identified by its href, it has no id
+			t := vfIRI("tag")
+			a.tree["tag"] = map[string]interface{}{"type": "Mention", "href": t}
+			vals = append([]vfVal{{id: t, embedded: true}}, vals...)
+		}
 	}
 	// stored collections: members are a function of the collection id
 	members := func(col string) []string {
